@@ -15,23 +15,23 @@ NA = {
 # id -> (category, technique, level text, level note, design ref)
 CLAIMED = {
  "C03": ("exploration",
-         "deterministic simulation: seeded workload + simulated Read/Write media (short transfers, EINTR, ENOSPC, EIO, Ok(0), flush error, torn and bit-flipped text) checked against a reference mapping-set model and an independent Tiny v2 reader",
+         "deterministic simulation: seeded workload + simulated Read/Write media (short transfers, EINTR, ENOSPC, EIO, Ok(0), flush error, torn and bit-flipped text) checked against a reference mapping-set model and an independent Tiny v2 reader One entry line of the written text is duplicated: the reader must refuse. Media errors carry a drawn error kind (EIO, InvalidData, TimedOut, UnexpectedEof, PermissionDenied, custom).",
          "Seeded search over (mapping set, insertion orders, section order, writer schedule, reader schedule, 0-2 faults). T0: written text read by an independent reader equals the model, real round trip equals the model, write is a fixed point and insertion-order independent. T1: any legal chunking/EINTR schedule gives byte-identical output and the identical value. T2: writer Ok implies the sink holds the complete text, Err implies a prefix; reader Ok on damaged media must equal the reference reading of the delivered bytes. Sampling, not proof.",
          "trusted: refmap (reference model, Tiny v2 reader/writer written from the format description), SimReader/SimWriter, std BufReader/BufWriter; values restricted to what Tiny v2 can carry (DESIGN appendix C)",
          "DESIGN.md section 4 C03"),
 }
 CLAIMED["C04"] = ("exploration",
- "deterministic simulation: edit histories whose diffs travel as .tinydiff text through simulated readers / tmpfs files, with delivery faults (drop, duplicate, reorder, wrong base, inconsistent text) and media faults, judged step by step by a reference diff/apply model",
+ "deterministic simulation: edit histories whose diffs travel as .tinydiff text through simulated readers / tmpfs files, with delivery faults (drop, duplicate, reorder, wrong base, inconsistent text) and media faults, judged step by step by a reference diff/apply model Nameless pairs (a shared node without target name on one side): whatever diff returns must apply to A and give B. The file route replaces one path between the steps of a history.",
  "Seeded search over (history S0..Sk, delivery sequence, text style, reader schedule, one history or media fault). T0: real diff equals reference diff, apply(diff(A,B),A)=B in memory and through text. Every delivered step: real and reference both refuse, or both produce the same set; real Ok where the reference refuses is reported (accepted-inconsistent-diff). T1: reader schedules do not change the parsed diff. T2: Ok on a damaged text must equal the reference reading of the delivered bytes. Sampling, not proof.",
  "trusted: refdiff (reference diff/apply and .tinydiff reader/writer), refmap, SimReader, SimDir; workload restricted to sets a diff can express (every entry named in the target namespace, parameters without source name)",
  "DESIGN.md section 4 C04")
 CLAIMED["C12"] = ("exploration",
- "deterministic simulation: Enigma stream API over simulated Read/Write media and the Enigma directory on a simulated disk (tmpfs scratch dir: drawn creation order, crash after k files with a torn last file, truncation, bit flip, vanished and stray files, heal), judged by a reference Enigma reader/writer and mapping-set model",
+ "deterministic simulation: Enigma stream API over simulated Read/Write media and the Enigma directory on a simulated disk (tmpfs scratch dir: drawn creation order, crash after k files with a torn last file, truncation, bit flip, vanished and stray files, heal), judged by a reference Enigma reader/writer and mapping-set model One file of the written directory sits on a full device (symbolic link to /dev/full: a real ENOSPC must be reported); files of the directory that is read placed as symbolic links.",
  "Seeded search over (mapping set within the Enigma proviso, insertion orders, writer/reader schedules, directory scenario, one fault). T0: text read by an independent reader equals the model; real round trip (stream and directory) equals the model; write_one per root concatenates to write_all; one file per root; two writes give identical trees. T1: schedules and creation order change nothing. T2: writer Err leaves a prefix, Ok means complete; a read that succeeds on a damaged stream/tree equals the reference reading of what is there; after heal the answer is the model again. Sampling, not proof.",
  "trusted: refmap Enigma reader/writer, SimReader/SimWriter, SimDir (tmpfs; listing order = reverse creation order on this kernel), walkdir; workload restricted to what Enigma can carry (see evidence assumptions)",
  "DESIGN.md section 4 C12")
 CLAIMED["C05"] = ("exploration",
- "deterministic simulation: the mappings directory as a simulated disk (tmpfs scratch dir with drawn file-creation = listing order, malformed layouts, files deleted / torn / flipped / misdirected between resolve and apply_diffs, heal), operation sequences judged against a reference version-graph model evaluated over the bytes on disk",
+ "deterministic simulation: the mappings directory as a simulated disk (tmpfs scratch dir with drawn file-creation = listing order, malformed layouts, files deleted / torn / flipped / misdirected between resolve and apply_diffs, heal), operation sequences judged against a reference version-graph model evaluated over the bytes on disk Every undamaged scenario runs under two creation orders and the answers are compared; islands whose edge leads into a reachable version; files placed as symbolic links; twin inner classes.",
  "Seeded search over (rooted graph of 1-8 versions with plain and split names, edit history per edge, creation order, malformation, query sequence interleaved with damage and heals). Every get/apply_diffs answer must equal the reference (root contracted, diffs along a shortest path, extension) for some shortest path; malformed directories must be refused; a directory whose lookup key is claimed twice must answer identically under three creation orders; under damage: Err, the reference reading of the current bytes, or the pre-damage answer; after heal the healthy answer. Sampling, not proof.",
  "trusted: c05 reference graph model, refdiff, refmap, SimDir (tmpfs lists newest-first on this kernel; the observed listing is logged), petgraph is exercised as real code",
  "DESIGN.md section 4 C05")
@@ -41,17 +41,17 @@ CLAIMED["C19"] = ("exploration",
  "trusted: refmvn (reference resolver from Maven's dependency-mechanism guide), SimNet, harness executor, serde-xml-rs; request order is logged, never constrained; generator restrictions listed in evidence assumptions",
  "DESIGN.md section 4 C19")
 CLAIMED["C16"] = ("fault_enumeration",
- "deterministic fault injection on the parsers' input media, observed from sandboxed child processes: per seed input (hand-built self-referential / deeply nested class files, generated and corpus class files with the reference encoder's offset map, generated Tiny v2 / tinydiff / Enigma / nests texts, descriptor strings) truncation at every offset, every length/count/index/offset/tag field at boundary values, bit flips, line and token edits, seeded multi-byte edits; verdict = the child returned (Ok or Err) without panic, abort, stack overflow, fuel exhaustion or allocation beyond a bound tied to the input length",
+ "deterministic fault injection on the parsers' input media, observed from sandboxed child processes: per seed input (hand-built self-referential / deeply nested class files, generated and corpus class files with the reference encoder's offset map, generated Tiny v2 / tinydiff / Enigma / nests texts, descriptor strings) truncation at every offset, every length/count/index/offset/tag field at boundary values, bit flips, line and token edits, seeded multi-byte edits; verdict = the child returned (Ok or Err) without panic, abort, stack overflow, fuel exhaustion or allocation beyond a bound tied to the input length Additional media faults: a medium that stays broken from an offset on, per error kind (decided by reader fuel); the class writer into a sink that answers Ok(0) (decided by sink fuel).",
  "Enumeration, not sampling, of the single-fault space per seed input for truncations, field boundary values and line/token edits (bit flips and multi-byte edits are sampled); the seed inputs are a seeded sample plus the vendored corpus plus hand-built adversarial structures. Every damaged input is given to the real duke::read_class (+ write_class on whatever it accepted), read_class_multi with the unit visitor, tiny_v2::read<2|3>, tiny_v2_diff::read and read_file, enigma_file::read_into, Nests::read, and the three descriptor parsers (+ write on what they accepted). Panics are caught in the child; allocation is accounted by the harness allocator (limit 64 MiB + 1024 x input length live bytes); the byte source has step fuel; stack overflow, allocation-failure abort and CPU loops kill the child and are classified by the parent, which restarts behind the fatal case. One witness (the smallest input) per violation identity is written as a replay file and re-run in a fresh sandboxed child by --replay.",
  "trusted: refclass encoder offset map (only to locate fields; a wrong map would aim mutations badly, never raise a false alarm), refmap/refdiff writers for seed texts, the sandbox (sh ulimit backstops, harness allocator, fixed 8 MiB worker stack, 45 s no-progress watchdog); 'returns' is judged at these limits, stated in evidence",
  "DESIGN.md section 4 C16")
 CLAIMED["C17"] = ("exploration",
- "deterministic simulation: one simulated Read+Seek stream holding 1-6 concatenated class files, read by successive read_class_multi calls with masked visitors (drawn interest masks per level, drawn declined classes / members / Code attributes), under drawn chunking / EINTR schedules and faults (EOF, EIO, failing seek, flipped byte); stream-position accounting after every call; received tree compared with the full read filtered by the mask; ClassFile::accept replay compared likewise",
+ "deterministic simulation: one simulated Read+Seek stream holding 1-6 concatenated class files, read by successive read_class_multi calls with masked visitors (drawn interest masks per level, drawn declined classes / members / Code attributes), under drawn chunking / EINTR schedules and faults (EOF, EIO, failing seek, flipped byte); stream-position accounting after every call; received tree compared with the full read filtered by the mask; ClassFile::accept replay compared likewise The members with an odd index can report a second member-level interest mask (hook H1c).",
  "Seeded search over (stream of 1-6 generated or corpus classes, visitor kind, interest mask at class/field/method/code/record level, declined items, reader schedule, 0-1 fault, accept on/off). After every successful call the position must equal the end of that class (a wrong skip corrupts the next class). What the masked tree builder received, projected into the reference model, must equal duke's own full read of the class with uninteresting kinds and declined members removed (an uninteresting kind that is delivered anyway must be the true value). accept() of the fully read tree into the same visitor must give the same. T1: schedules change nothing. T2: Err, or Ok equal to the expectation; a flipped byte is judged against the full read of the delivered bytes. Sampling, not proof.",
  "trusted: proj.rs (projection duke tree -> refclass::Sem), the mask filter in c17.rs, duke::verif::masked wrappers (pure forwarding, part of the hook), SimReader; the full read's own fidelity is C01's subject",
  "DESIGN.md section 4 C17")
 CLAIMED["C02"] = ("exploration",
- "deterministic simulation: the class writer's Write sink replaced by a simulated sink (short writes, EINTR, Ok(0), ENOSPC at a drawn fraction of the output, EIO at call n, flush error); the accepted bytes are judged by an independent class-file parser against the projection of the tree that was written; workload = trees read from generated, corpus, big-jump and grow-ldc classes",
+ "deterministic simulation: the class writer's Write sink replaced by a simulated sink (short writes, EINTR, Ok(0), ENOSPC at a drawn fraction of the output, EIO at call n, flush error); the accepted bytes are judged by an independent class-file parser against the projection of the tree that was written; workload = trees read from generated, corpus, big-jump and grow-ldc classes After the main write a write that fails inside an attribute body is made on the same thread and the tree is written again: same bytes (history independence). Media errors carry a drawn error kind; the sink has fuel (a writer that keeps calling a sink which accepts nothing is a runaway).",
  "Seeded search over (input class: generated under drawn features/size/layout, corpus, big-jump stress, grow-ldc; writer schedule; 0-1 sink fault). T0: the written bytes parse under the independent parser (structural validity) and denote exactly the projection of the tree, trampolines folded on both sides; two writes are byte-identical. T1: legal short / interrupted writes give byte-identical output. T2: Err with a prefix in the sink, never Ok with an incomplete sink; a later write to a healthy sink gives the plain bytes. A clean Err at T0 is allowed by the property and only counted. Sampling, not proof.",
  "trusted: refclass parser/validator (independent, javap cross-checked), proj.rs, trampoline folding in c02.rs, SimWriter; classes duke's reader refuses cannot be written and are skipped (that is C01's subject)",
  "DESIGN.md section 4 C02")
